@@ -29,6 +29,10 @@ CHECKS = {
    text="The exporting endpoint is crashed (socket severed, no Close) at every prefix (i,j) of records, i,j <= 4, on either side, for every DTLS 1.2 configuration, and restarted from the serialised bytes on a new socket at the same address; sampled runs add longer prefixes, datagrams in flight, and corruption of the bytes. The untouched peer is the judge: data flows both ways, keying material and parameters are equal, record numbers continue.",
    note="Corrupted states are held to the statement only: rejected, or a connection whose records the peer never delivers; no panic.",
    technique="deterministic simulation: crash-point enumeration + seeded corruption of the durable image"),
+ "C01": dict(level="exploration", design="§5 C01",
+   text="Seeded sampling of compatible configuration pairs (version mode, authentication mode, client-auth policy, EMS policies, suite/curve lists in independent orders, CID generators, SRTP/MKI, ALPN, MTU, hello-verify, session stores with resumption) crossed with lossy/duplicating/reordering delivery of the handshake; whenever both sides report success their complete session views are compared through the public API, a read-only accessor for version and CIDs, and the wire, and data must flow both ways.",
+   note="Agreement is asserted only when both sides succeed (completion is C02's and C11's business). For resumed connections an empty peer chain is accepted: an abbreviated handshake presents no certificate.",
+   technique="deterministic simulation: seeded configuration-pair and delivery-schedule sampling with a cross-endpoint agreement oracle"),
 }
 
 NOT_YET = {}
